@@ -78,7 +78,12 @@ Cat ==
                                VIface(S1, S1Val(1, 1)), VIface(TPtr(S1), VPtr(S1Val(1, 0))),
                                VIface(S3, S3Val(VIface(TMap(tIface), VMap(<<KV(<<119>>, VIface(tInt, Leaf(tInt, 1)))>>)))),
                                VIface(S3, S3Val(VNil("iface"))),
+                               VIface(TNamed("FoldSl"), VSlice(<<Leaf(tStr, 1), Leaf(tStr, 0)>>)), VIface(TNamed("FoldMp"), VMap(<<KV(<<107>>, Leaf(tInt, 1))>>)),
+                               VIface(TSlice(tIface), VSlice(<<VIface(TNamed("FoldSl"), VSlice(<<Leaf(tStr, 1)>>)), VIface(TPtr(TNamed("FoldT")), VNil("ptr"))>>)),
+                               VIface(TMap(tIface), VMap(<<KV(<<107>>, VIface(TNamed("FoldMp"), VMap(<<>>))), KV(<<108>>, VIface(TPtr(TNamed("FoldObj")), VNil("ptr")))>>)),
                                VIface(TPtr(S3), VPtr(S3Val(VIface(S1, S1Val(1, 1)))))}}
+  \cup {<<TNamed("FoldSl"), x>> : x \in {VNil("slice"), VSlice(<<Leaf(tStr, 1), Leaf(tStr, 1)>>)}}
+  \cup {<<TNamed("FoldMp"), x>> : x \in {VNil("map"), VMap(<<KV(<<107>>, Leaf(tInt, 1))>>)}}
   \cup {<<TNamed("KMap"), x>> : x \in {VNil("map"), VMap(<<KV(<<107>>, VStruct(<<Leaf(tInt, 1)>>)), KV(<<108>>, VStruct(<<Leaf(tInt, 0)>>))>>)}}
   \cup {<<TNamed("KMapI"), x>> : x \in {VNil("map"), VMap(<<KV(<<107>>, Leaf(tInt, 1))>>)}}
   \cup {<<TSlice(TNamed("KMap")), VSlice(<<VMap(<<KV(<<107>>, VStruct(<<Leaf(tInt, 1)>>))>>)>>)>>}
@@ -145,7 +150,7 @@ RefusedCases ==
   \cup {[T |-> TNamed(id), V |-> V0("opaque")] : id \in {"chan", "func", "complex128", "mapintstr"}}
 \* two fields of the SAME type with different tags: a type is compiled as a
 \* plain value and as an inlined / omitted one within the same iterator
-PairTypes == {<<S1, S1Val(1, 1)>>, <<TPtr(S1), VPtr(S1Val(1, 0))>>, <<TMap(tInt), VMap(<<KV(<<97>>, Leaf(tInt, 1))>>)>>,
+PairTypes == {<<S1, S1Val(1, 1)>>, <<TPtr(S1), VPtr(S1Val(1, 0))>>, <<TPtr(tStr), VPtr(Leaf(tStr, 1))>>, <<TPtr(TPtr(tStr)), VPtr(VPtr(Leaf(tStr, 1)))>>, <<TMap(tInt), VMap(<<KV(<<97>>, Leaf(tInt, 1))>>)>>,
               <<tIface, VIface(TMap(tIface), VMap(<<KV(<<107>>, VIface(tInt, Leaf(tInt, 1)))>>))>>,
               <<TMap(tIface), VMap(<<KV(<<109>>, VIface(tStr, Leaf(tStr, 1)))>>)>>}
 PairTags == {<<>>, <<"inline">>, <<"omitempty">>}
